@@ -4,6 +4,7 @@ import MobiusModel.Props.C01
 import MobiusModel.Props.C12
 import MobiusModel.Generated.Concurrency
 import MobiusModel.Generated.Handlers
+import MobiusModel.Generated.Outbox
 /-!
   C14 — Each client receives whole, well-formed, correlated transactions.
 
@@ -192,6 +193,27 @@ theorem generated_outbox_single_goroutine :
 theorem generated_reply_ctors :
     Generated.replyCtors = [("NewReply", "IsReply=true ID=true ClientID=true"), ("NewErrReply", "IsReply=true ID=true ClientID=true")] := by
   decide
+
+/-- `sendTransaction` makes exactly these calls: look the addressee up, serialise, ONE `Write` — no write
+    deadline (a `Write` that can be abandoned half-way is a multi-chunk writer), no second write. -/
+theorem generated_send_calls : Generated.sendCalls = ["ClientMgr.Get", "io.ReadAll", "Connection.Write"] := by decide
+
+/-- Once a connection is registered with the client manager `handleNewConnection` writes nothing to it
+    directly: the whole login sequence (reply, access, agreement) goes through the outbox, one `Write` each. -/
+theorem generated_login_no_direct_writes : Generated.loginDirectWrites = [] := by decide
+
+/-- Why a deadline on the `Write` matters: a transaction abandoned after a prefix, followed by the next
+    transaction, is a stream that parses neither to the next transaction alone nor to both. -/
+theorem abandoned_write_breaks_framing :
+    ∃ (A B : Transaction) (k : Nat), A.WFdec ∧ B.WFdec ∧ 0 < k ∧ k < A.encode.length ∧
+      ∀ p : List Transaction, (p = [B] ∨ p.Perm [A, B]) → parseStream (A.encode.take k ++ B.encode) ≠ .ok p := by
+  refine ⟨witnessA, witnessB, 10,
+    by simp [Transaction.WFdec, Field.Scannable, Field.WF, witnessA, Transaction.payloadSize],
+    by simp [Transaction.WFdec, Field.Scannable, Field.WF, witnessB, Transaction.payloadSize], by decide, by decide +kernel, ?_⟩
+  intro p _ h
+  have e : parseStream (witnessA.encode.take 10 ++ witnessB.encode) = .err := by decide +kernel
+  rw [e] at h
+  cases h
 
 -- ------------------------------------------------------------------ non-vacuity
 
